@@ -254,14 +254,14 @@ func parseRequestBody(c *Client, r *Request) (err error) {
 	if len(r.OrderedFormData)%2 != 0 {
 		return errBadOrderedFormData
 	}
-	// handle multipart
-	if r.isMultiPart {
-		return handleMultiPart(c, r)
-	}
-
 	// handle form data
 	if len(c.FormData) > 0 && r.RetryAttempt == 0 { // once: r.FormData is carried over to the retries
 		r.SetFormDataFromValues(c.FormData)
+	}
+
+	// handle multipart
+	if r.isMultiPart {
+		return handleMultiPart(c, r)
 	}
 
 	if len(r.FormData) > 0 {
